@@ -704,7 +704,11 @@ where
     // Update self.context.state.consecutive_failed_update_checks and report the metric if
     // `success`. Does not persist the value to storage, but rather relies on the caller.
     async fn report_attempts_to_successful_check(&mut self, success: bool) {
-        let attempts = self.context.state.consecutive_failed_update_checks + 1;
+        let attempts = self
+            .context
+            .state
+            .consecutive_failed_update_checks
+            .saturating_add(1);
         if success {
             self.context.state.consecutive_failed_update_checks = 0;
             self.report_metrics(Metrics::AttemptsToSuccessfulCheck(attempts as u64));
@@ -1296,7 +1300,11 @@ where
             Ok(res) => res,
             Err(e) => {
                 error!("Ping Omaha failed: {:#}", anyhow!(e));
-                self.context.state.consecutive_failed_update_checks += 1;
+                self.context.state.consecutive_failed_update_checks = self
+                    .context
+                    .state
+                    .consecutive_failed_update_checks
+                    .saturating_add(1);
                 self.persist_data().await;
                 return;
             }
@@ -1306,7 +1314,11 @@ where
             Ok(res) => res,
             Err(e) => {
                 error!("Unable to parse Omaha response: {:#}", anyhow!(e));
-                self.context.state.consecutive_failed_update_checks += 1;
+                self.context.state.consecutive_failed_update_checks = self
+                    .context
+                    .state
+                    .consecutive_failed_update_checks
+                    .saturating_add(1);
                 self.persist_data().await;
                 return;
             }
